@@ -328,12 +328,19 @@ PROPS = {
                   "fresh server started with the new policy and fed the final route set; repeating the reset changes nothing."),
         "note": ("IPv4 unicast only; peers are not route-server clients (per-peer policies apply only to those); policy changes "
                  "are made with SetPolicies + SetPolicyAssignment; ExternalCompareRouterId is set so that the decision between "
-                 "equal external paths does not depend on arrival order, which differs between the two runs."),
+                 "equal external paths does not depend on arrival order, which differs between the two runs. "
+                 "Since round 2 of the seeds: an optional intermediate policy (with its own reset) between the old and the new one, "
+                 "a third source, an ADD-PATH target with a slot for every source (send-max is first come, first served, so fewer "
+                 "slots would make the two runs incomparable by design). Second unit: the C01 histories (reference export oracle) "
+                 "include a ROUTE-REFRESH from a peer racing another peer's update under steered schedules: the answer must leave the "
+                 "peer with exactly the current export."),
         "technique": "metamorphic property testing (rapid) in virtual time: state after policy change + soft reset vs. fresh run under the new policy",
         "rule": ("non-trivial when the new program differs from the old one and the fresh run's Loc-RIB is not empty; distinct by case hash"),
         "assumptions": [],
         "units": [
-            {"pkg": S, "test": "TestVerifC15", "quick": (16, 60), "thorough": (16, 6000), "timeout_q": 1500},
+            {"pkg": S, "test": "TestVerifC15", "quick": (16, 100), "thorough": (16, 6000), "timeout_q": 1500},
+            # ROUTE-REFRESH answered while another peer's update is in flight (C01's histories, op hRaceRefresh, steered schedules)
+            {"pkg": S, "test": "TestVerifC01", "quick": (16, 100), "thorough": (16, 4000), "timeout_q": 1500},
         ],
     },
     "C19": {
